@@ -9,7 +9,7 @@ def run(ctx):
                 "96-bit bounds, legacy assets) is given to whole-file decompression (`W<prefix> D`): the answer must be "
                 "err InsufficientData - never ok, another kind or a panic; the Lean decoder is run on the same prefixes and "
                 "kinds are compared. non-trivial = L >= 6 (past the header)")
-    files = D.make_files(ctx, 30 if ctx.quick else 200, small=ctx.quick) + D.make_files(ctx, 6 if ctx.quick else 40)
+    files = D.make_files(ctx, 60 if ctx.quick else 300, small=ctx.quick) + D.make_files(ctx, 15 if ctx.quick else 80)
     lines, info = [], []
     for f in files:
         nb = len(f["hex"]) // 2
